@@ -78,7 +78,7 @@ claimed["C10"] = dict(
         "hashes cannot be reported as leaves — that every success path of both Modify implementations removes every deleted hash from the index, every undone addition leaves "
         "it, and a Modify rejected by validation has not touched it; that the indexed position is the position expression the node is stored at, follows the node on every step of a "
         "multi-step move, and is re-translated before TotalRows is switched; and that a position read either goes through the keyed node store or gates the pointer walk from an arithmetically "
-        "chosen root by an exact existence test of the position against the leaf count (a read outside the forest gives the zero hash). Positions returned (arithmetic) and the hash read at an existing position are not decided.",
+        "chosen root by an exact existence test of the position against the leaf count (a read outside the forest gives the zero hash), and that a hit under the pointer forest's truncated-hash key is confirmed by comparing the full hash before it is reported as found. Positions returned (arithmetic) and the hash read at an existing position are not decided.",
    ref="DESIGN.md 5/C10, engine E5",
    technique="static who-may-insert rule with typed key provenance (interprocedural backward slice), guard analysis, must-pass-through pairing and ordering rules on go/ssa (custom analyzer)")
 claimed["C09"] = dict(
